@@ -40,8 +40,8 @@ SEEDED_SCALE = {"quick": 3, "thorough": 5}      # multiplies the run counts of t
 
 def plan(tier):
     if tier == "quick":
-        return [("AsyncFIFO", 60), ("CDC", 60), ("CDCSame", 16), ("BusSync", 80), ("CDCReset", 40), ("AXILiteCDC", 40), ("UART", 40), ("UARTBone", 30)]
-    return [("AsyncFIFO", 3000), ("CDC", 3000), ("CDCSame", 300), ("BusSync", 4000), ("CDCReset", 2000), ("AXILiteCDC", 2000), ("UART", 2000), ("UARTBone", 1500)]
+        return [("AsyncFIFO", 60), ("CDC", 60), ("CDCSame", 16), ("BusSync", 80), ("CDCReset", 40), ("AXILiteCDC", 40), ("UART", 40), ("UARTBone", 30), ("FreqMeter", 30)]
+    return [("AsyncFIFO", 3000), ("CDC", 3000), ("CDCSame", 300), ("BusSync", 4000), ("CDCReset", 2000), ("AXILiteCDC", 2000), ("UART", 2000), ("UARTBone", 1500), ("FreqMeter", 1500)]
 
 
 def count_dom(schedule, d):
@@ -58,6 +58,9 @@ def generate(family, rng, tier):
     if family == "UARTBone":
         from props import c05_uartbone
         return c05_uartbone.generate(rng, tier)
+    if family == "FreqMeter":
+        from props import c05_freqmeter
+        return c05_freqmeter.generate(rng, tier)
     if family == "AXILiteCDC":
         # AXILiteClockDomainCrossing: memory semantics through five stream crossings (oracle and agents of C09)
         from props import c09
@@ -246,6 +249,9 @@ def run(scn):
     if fam == "UARTBone":
         from props import c05_uartbone
         return c05_uartbone.run(scn)
+    if fam == "FreqMeter":
+        from props import c05_freqmeter
+        return c05_freqmeter.run(scn)
     if fam == "AXILiteCDC":
         from props import c09
         res = c09.run1(scn)
